@@ -385,6 +385,27 @@ func checkMain(args []string) int {
 	if len(samples) == 0 {
 		samples = append(samples, map[string]interface{}{"note": "no discharged obligation to sample"})
 	}
+	// the slowest discharged obligations: anything near the timeout is a candidate for a spurious alarm on a loaded machine
+	type slowOb struct {
+		Name   string  `json:"obligation"`
+		TimeS  float64 `json:"time_s"`
+		Solver string  `json:"solver"`
+	}
+	var slow []slowOb
+	for _, ob := range all {
+		if ob.Status == "discharged" && ob.Kind != "cover" {
+			slow = append(slow, slowOb{ob.Name, round2(ob.TimeS), ob.Solver})
+		}
+	}
+	sort.Slice(slow, func(i, j int) bool { return slow[i].TimeS > slow[j].TimeS })
+	if len(slow) > 8 {
+		slow = slow[:8]
+	}
+	for _, so := range slow {
+		if so.TimeS > float64(timeout)/4 {
+			fmt.Printf("SLOW: %s discharged in %.1fs of %ds (%s)\n", so.Name, so.TimeS, timeout, so.Solver)
+		}
+	}
 	ev := map[string]interface{}{
 		"property_id": prop,
 		"tier":        *tier,
@@ -411,6 +432,7 @@ func checkMain(args []string) int {
 			"violations":   violations,
 			"outside_subset": outside,
 			"cover_checks_vacuous": vacuous,
+			"slowest_discharged": slow,
 			"slowest_instances": slowest(all, 8),
 			"bounded":      boundedEv,
 		},
